@@ -166,6 +166,18 @@ def roundtrip_impl(impl, case, mode, hist=None, hstats=None):
     except UnicodeEncodeError:
         return None, "not-latin1"
     d = impl.decode(frame)
+    if sum(frame) % 3 == 0:
+        # decoding is a function of the buffer: the same codec OBJECT, after it was shown a long frame that never
+        # completed (a connection that died mid-frame) and then given this frame followed by another one in one
+        # buffer, must answer exactly as before (a Codec that remembers anything about an abandoned buffer fails)
+        bs = K.proto().beginstring
+        impl.decode(("8=%s\x019=%d\x0135=D\x0158=" % (bs, len(frame) + 4000)).encode("latin-1") + b"x" * (len(frame) + 700))
+        d2 = impl.decode(frame + frame)
+        if d2 != d:
+            return {"signature": "C01-decode-depends-on-codec-history:" + mode,
+                    "what": "the same codec object decodes this frame differently after having seen an unfinished frame "
+                            "(and with another frame behind it in the buffer)",
+                    "input": inp, "expected": d[:3000], "observed": d2[:3000]}, "checked"
     # independent expectation: BodyLength / CheckSum recomputed by the reference framer
     st = seq_text_of(case, mode)
     if st is None:
